@@ -39,6 +39,9 @@ type Options struct {
 	MaxTemplateChars     int `json:"max_template_chars,omitempty"`
 	MaxFieldChars        int `json:"max_field_chars,omitempty"`
 	MaxResultChars       int `json:"max_result_chars,omitempty"`
+	// FrozenClock: every clock read within a sprint returns the same instant (the way goflow's own tests pin time),
+	// instead of advancing by one second per read
+	FrozenClock bool `json:"frozen_clock,omitempty"`
 }
 
 // Step is one resume of the scenario.
@@ -69,11 +72,12 @@ var t0 = time.Date(2024, 3, 10, 10, 0, 0, 0, time.UTC)
 
 var clockMu sync.Mutex
 var clockNow time.Time
+var clockStep = time.Second
 
 func now() time.Time {
 	clockMu.Lock()
 	defer clockMu.Unlock()
-	clockNow = clockNow.Add(time.Second)
+	clockNow = clockNow.Add(clockStep)
 	return clockNow
 }
 
@@ -272,6 +276,12 @@ func Start(c *Case) (*Runner, *Sprint, error) {
 	if r.Assets, err = LoadAssets(c.Assets); err != nil {
 		return nil, nil, fmt.Errorf("assets do not load: %w", err)
 	}
+	clockMu.Lock()
+	clockStep = time.Second
+	if c.Options.FrozenClock {
+		clockStep = 0
+	}
+	clockMu.Unlock()
 	ResetSources(c.Seed, 0)
 	trigger, err := triggers.ReadTrigger(r.Assets, c.Trigger, r.missing)
 	if err != nil {
